@@ -1,13 +1,11 @@
-//! Witness search and replay against the real conserve crate.
+//! Witness search and replay against the real conserve crate (public API only).
 //! usage: witness <search|replay> <kind> [json-input]
-//! Prints one JSON object: {"found": bool, "kind": .., "input": .., "real": .., "expected": ..}
+//! Prints one JSON object: {"found": bool, "kind": .., "input": .., "real": .., "expected": .., "explain": ..}
+//! Modules: every src/w_*.rs exposes `pub fn dispatch(mode, kind, input) -> Option<Value>` (see build.rs).
 
-use std::cmp::Ordering;
-
-use conserve::Apath;
 use serde_json::{json, Value};
 
-mod paths;
+include!(concat!(env!("OUT_DIR"), "/mods.rs"));
 
 fn main() {
     let args: Vec<String> = std::env::args().collect();
@@ -15,19 +13,8 @@ fn main() {
         eprintln!("usage: witness <search|replay> <kind> [json]");
         std::process::exit(2);
     }
-    let mode = args[1].as_str();
-    let kind = args[2].as_str();
     let input: Option<Value> = args.get(3).map(|s| serde_json::from_str(s).expect("json input"));
-    let out = match (mode, kind) {
-        ("search", "apath_prefix") => paths::search_prefix(),
-        ("replay", "apath_prefix") => paths::replay_prefix(&input.unwrap()),
-        ("search", "apath_cmp") => paths::search_cmp(),
-        ("replay", "apath_cmp") => paths::replay_cmp(&input.unwrap()),
-        ("search", "apath_valid") => paths::search_valid(),
-        ("replay", "apath_valid") => paths::replay_valid(&input.unwrap()),
-        _ => json!({"found": false, "error": format!("unknown witness kind {kind}")}),
-    };
+    let out = dispatch(&args[1], &args[2], input.as_ref())
+        .unwrap_or_else(|| json!({"found": false, "error": format!("unknown witness kind {}", args[2])}));
     println!("{}", out);
-    let _ = Ordering::Equal;
-    let _ = Apath::root();
 }
